@@ -73,6 +73,140 @@ def sE : Either Val Val → String
   | .right r => s!"Right({r})"
 def sSeq (l : List Val) : String := toString (Val.seq l)
 
+-- transformer operands ------------------------------------------------------------------------------
+def toOf : Sexp → Option (Try (Option Val))
+  | .list [.atom "tsome", n] => do pure (.success (some (.int (← n.asInt?))))
+  | .list [.atom "tsomenil"] => pure (.success (some .nil))
+  | .list [.atom "tnone"] => pure (.success none)
+  | .list [.atom "tfail", e] => do pure (.failure (.code (← e.asInt?)))
+  | _ => none
+
+def tsOf : Sexp → Option (Try (List Val))
+  | .list (.atom "tseq" :: xs) => do pure (.success ((← xs.mapM Sexp.asInt?).map Val.int))
+  | .list [.atom "tfail", e] => do pure (.failure (.code (← e.asInt?)))
+  | _ => none
+
+def ktoOf (s : Sexp) : Option (Val → GoM (Try (Option Val))) := do
+  let k ← KT.interp s
+  pure fun x => do
+    match ← k x with
+    | .success v => if emod v.asInt 2 == 0 then pure (.success none) else pure (.success (some v))
+    | .failure e => do let e ← Try.failedGet (.failure e : Try Val); pure (.failure e)
+
+def ktsOf (s : Sexp) : Option (Val → GoM (Try (List Val))) := do
+  let k ← KT.interp s
+  pure fun x => do
+    match ← k x with
+    | .success v => pure (.success [v, x])
+    | .failure e => do let e ← Try.failedGet (.failure e : Try Val); pure (.failure e)
+
+def sTO (t : Try (Option Val)) : String :=
+  match t with
+  | .success o => s!"Success({Val.ofOption o})"
+  | .failure .nil => "Failure(ErrNotInit)"
+  | .failure e => s!"Failure({e})"
+def sTS (t : Try (List Val)) : String :=
+  match t with
+  | .success l => s!"Success({Val.seq l})"
+  | .failure .nil => "Failure(ErrNotInit)"
+  | .failure e => s!"Failure({e})"
+def sTB (t : Try Bool) : String :=
+  match t with
+  | .success b => s!"Success({sB b})"
+  | .failure .nil => "Failure(ErrNotInit)"
+  | .failure e => s!"Failure({e})"
+
+def seqFind (l : List Val) (p : Val → GoM Bool) : GoM (Option Val) := do
+  for v in l do
+    if ← p v then return some v
+  return none
+def seqExists (l : List Val) (p : Val → GoM Bool) : GoM Bool := do
+  for v in l do
+    if ← p v then return true
+  return false
+def seqForAll (l : List Val) (p : Val → GoM Bool) : GoM Bool := do
+  for v in l do
+    if !(← p v) then return false
+  return true
+def seqFilter (l : List Val) (p : Val → GoM Bool) : GoM (List Val) := do
+  let mut r := []
+  for v in l do
+    if ← p v then r := r ++ [v]
+  return r
+
+open FpVerif.TryT in
+def runTOp : Sexp → Option (GoM String)
+  | .list [.atom "optT.pure", n] => do pure (sTO <$> pureOptionT (.int (← n.asInt?)))
+  | .list [.atom "optT.lift", t] => do pure (sTO <$> liftOptionT (pure (← tOf t)))
+  | .list [.atom "optT.map", t, f] => do pure (sTO <$> mapOptionT (pure (← toOf t)) (← F1.interp f))
+  | .list [.atom "optT.subFlatMap", t, k] => do pure (sTO <$> subFlatMapOptionT (pure (← toOf t)) (← koOf k))
+  | .list [.atom "optT.traverse", t, k] => do pure (sTO <$> traverseOptionT (pure (← toOf t)) (← KT.interp k))
+  | .list [.atom "optT.flatMap", t, k] => do pure (sTO <$> flatMapOptionT (pure (← toOf t)) (← ktoOf k))
+  | .list [.atom "optT.filter", t, p] => do
+      let p ← P1.interp p
+      pure (sTO <$> transformT (pure (← toOf t)) (fun o => OptM.filter o p))
+  | .list [.atom "optT.orElse", t, n] => do
+      let n ← n.asInt?
+      pure (sT <$> transformT (pure (← toOf t)) (fun o => pure (OptM.orElse o (.int n))))
+  | .list [.atom "optT.orElseGet", t, s] => do
+      let s ← sup s
+      pure (sT <$> transformT (pure (← toOf t)) (fun o => OptM.orElseGet o s))
+  | .list [.atom "optT.or", t, id, o2] => do
+      let id ← id.asInt?; let o2 ← oOf o2
+      pure (sTO <$> transformT (pure (← toOf t)) (fun o => OptM.or o (fun _ => do emit s!"s{id}"; pure o2)))
+  | .list [.atom "optT.orOption", t, o2] => do
+      let o2 ← oOf o2
+      pure (sTO <$> transformT (pure (← toOf t)) (fun o => pure (OptM.orOption o o2)))
+  | .list [.atom "optT.recover", t, s] => do
+      let s ← sup s
+      pure (sTO <$> transformT (pure (← toOf t)) (fun o => OptM.recover o s))
+  | .list [.atom "optT.fold", t, z, f] => do
+      let z ← z.asInt?; let f ← F2.interp f
+      pure (sT <$> transformT (pure (← toOf t)) (fun o => OptM.fold o (.int z) f))
+  | .list [.atom "seqT.pure", n] => do pure (sTS <$> pureSeqT (.int (← n.asInt?)))
+  | .list [.atom "seqT.lift", t] => do pure (sTS <$> liftSeqT (pure (← tOf t)))
+  | .list [.atom "seqT.map", t, f] => do pure (sTS <$> mapSeqT (pure (← tsOf t)) (← F1.interp f))
+  | .list [.atom "seqT.subFlatMap", t, f] => do
+      let f ← F1.interp f
+      pure (sTS <$> subFlatMapSeqT (pure (← tsOf t)) (fun x => do let y ← f x; pure [y, x]))
+  | .list [.atom "seqT.traverse", t, k] => do pure (sTS <$> traverseSeqT (pure (← tsOf t)) (← KT.interp k))
+  | .list [.atom "seqT.flatMap", t, k] => do pure (sTS <$> flatMapSeqT (pure (← tsOf t)) (← ktsOf k))
+  | .list [.atom "seqT.filter", t, p] => do
+      let p ← P1.interp p
+      pure (sTS <$> transformT (pure (← tsOf t)) (fun l => seqFilter l p))
+  | .list [.atom "seqT.filterNot", t, p] => do
+      let p ← P1.interp p
+      pure (sTS <$> transformT (pure (← tsOf t)) (fun l => seqFilter l (fun v => do pure (!(← p v)))))
+  | .list [.atom "seqT.exists", t, p] => do
+      let p ← P1.interp p
+      pure (sTB <$> transformT (pure (← tsOf t)) (fun l => seqExists l p))
+  | .list [.atom "seqT.forAll", t, p] => do
+      let p ← P1.interp p
+      pure (sTB <$> transformT (pure (← tsOf t)) (fun l => seqForAll l p))
+  | .list [.atom "seqT.find", t, p] => do
+      let p ← P1.interp p
+      pure (sTO <$> transformT (pure (← tsOf t)) (fun l => seqFind l p))
+  | .list [.atom "seqT.add", t, n] => do
+      let n ← n.asInt?
+      pure (sTS <$> transformT (pure (← tsOf t)) (fun l => pure (l ++ [.int n])))
+  | .list [.atom "seqT.take", t, n] => do
+      let n ← n.asNat?
+      pure (sTS <$> transformT (pure (← tsOf t)) (fun l => pure (l.take n)))
+  | .list [.atom "seqT.drop", t, n] => do
+      let n ← n.asNat?
+      pure (sTS <$> transformT (pure (← tsOf t)) (fun l => pure (l.drop n)))
+  | .list [.atom "seqT.head", t] => do pure (sTO <$> transformT (pure (← tsOf t)) (fun l => pure l.head?))
+  | .list [.atom "seqT.last", t] => do pure (sTO <$> transformT (pure (← tsOf t)) (fun l => pure l.getLast?))
+  | .list [.atom "seqT.tail", t] => do pure (sTS <$> transformT (pure (← tsOf t)) (fun l => pure l.tail))
+  | .list [.atom "seqT.init", t] => do pure (sTS <$> transformT (pure (← tsOf t)) (fun l => pure l.dropLast))
+  | .list [.atom "seqT.reverse", t] => do pure (sTS <$> transformT (pure (← tsOf t)) (fun l => pure l.reverse))
+  | .list [.atom "seqT.size", t] => do
+      pure ((fun (t : Try Val) => sT t) <$> transformT (pure (← tsOf t)) (fun l => pure (Val.int l.length)))
+  | .list [.atom "seqT.fold", t, z, f] => do
+      let z ← z.asInt?; let f ← F2.interp f
+      pure (sT <$> transformT (pure (← tsOf t)) (fun l => l.foldlM f (.int z)))
+  | _ => none
+
 def runOp : Sexp → Option (GoM String)
   | .list [.atom "t.map", t, f] => do pure (sT <$> TryM.mMap (← tOf t) (← F1.interp f))
   | .list [.atom "t.flatMap", t, k] => do pure (sT <$> TryM.mFlatMap (← tOf t) (← KT.interp k))
@@ -150,7 +284,7 @@ def runOp : Sexp → Option (GoM String)
 
 def step (line : String) : String :=
   match Sexp.parse line with
-  | some op => match runOp op with
+  | some op => match (runTOp op).orElse (fun _ => runOp op) with
     | some g => renderOutcome id (GoM.exec g)
     | none => "bad-op"
   | none => "bad-op"
